@@ -203,6 +203,17 @@ theorem rsamd5_agrees_with_library (dec : Bytes → Bytes × Bool) (chunk : Nat)
     have : (dec pk).1.length < 3 := by omega
     simp [this, hlib]
 
+/-- **The decoder model agrees with RFC 4648 on canonical input**: decoding the
+RFC 4648 §4 encoding of any octet string gives that string back, without
+error — for every length, padding case included. (The encoder `b64Encode` is
+the RFC's definition; the run also compares it with `encoding/base64` on the
+`b64 enc` op.) -/
+theorem b64_decode_inverts_rfc4648 (b : Bytes) : b64Decode (b64Encode b) = (b, true) :=
+  b64Decode_encode b.length b (Nat.le_refl _)
+
+example : b64Encode [1, 2, 3, 4] = [65, 81, 73, 68, 66, 65, 61, 61] := by decide
+example : b64Decode (b64Encode [255, 0, 17, 42, 7]) = ([255, 0, 17, 42, 7], true) := b64_decode_inverts_rfc4648 _
+
 /-- **RSAMD5 tag = the library's, no hypothesis left.** For every key text —
 wrapped with CR / LF anywhere, padded, malformed at any point —
 `rsamd5KeyTag`'s CR/LF-skipping chunked read sees exactly the octets one decode
@@ -226,6 +237,19 @@ theorem keytag_equals_library (flags proto alg : Nat) (hf : flags < 65536) (hp :
   · exact keytag_agrees_with_library_b64 flags proto alg hf hp ha h1 pk t hlib
 
 example : keyTag b64Decode 256 5456 (0x0203) 257 3 1 [65, 81, 73, 68, 66, 65, 61, 61] = 0x0203 := by decide
+
+/-- **End to end for a canonically encoded key**: for every algorithm but
+RSAMD5 and key material of at most 4092 octets, `KeyTag` of the DNSKEY whose
+PublicKey text is the RFC 4648 encoding of the material is the RFC 4034
+Appendix B checksum of the RDATA — no decoder hypothesis, no library in between. -/
+theorem keytag_of_encoded_key_is_rfc4034 (flags proto alg : Nat) (hf : flags < 65536) (hp : proto < 256) (ha : alg < 256)
+    (halg : alg ≠ 1) (key : Bytes) (hlen : key.length ≤ 4092) :
+    keyTag b64Decode SdnsVerif.Gen.C14.key_tag_chunk 5456 (rfcKeyTag (keyRdata flags proto alg key)) flags proto alg (b64Encode key)
+      = rfcKeyTag (keyRdata flags proto alg key) := by
+  apply keytag_equals_library flags proto alg hf hp ha
+  unfold libKeyTag
+  have hbig : ¬ 4 + key.length > 4096 := by omega
+  simp [halg, b64_decode_inverts_rfc4648, hbig]
 
 -- a wrapped RSAMD5 text ("AQID" LF "BA==" = 01 02 03 04): the tag is octets len-3, len-2
 example : keyTag b64Decode 256 5456 (0x0203) 257 3 1 [65, 81, 73, 68, 10, 66, 65, 61, 61] = 0x0203 := by decide
